@@ -172,7 +172,8 @@ class Check(DiffCheck):
     id = 'C02'
     needs_libphoton = True
     coq_dirs = ['Base', 'C04', 'Sched', 'C02']
-    coq_targets = ['C02/C02_Base.vo', 'C02/C02_Cons.vo', 'C02/C02_Safe.vo', 'C02/C02_Refute.vo', 'C02/C02_Coop.vo']
+    coq_targets = ['C02/C02_Base.vo', 'C02/C02_Cons.vo', 'C02/C02_Safe.vo', 'C02/C02_Refute.vo', 'C02/C02_Locks.vo', 'C02/C02_LockProto.vo',
+                   'C02/C02_Locks2.vo', 'C02/C02_Locks3.vo', 'C02/C02_Summ.vo', 'C02/C02_Credit.vo', 'C02/C02_Coop.vo']
     properties_v = 'C02/C02_Properties.v'
     extract_v = 'C02/C02_Extract.v'
     model_module = 'C02_model'
@@ -287,7 +288,7 @@ class Check(DiffCheck):
                 cov['destroy_after_wait'] = last
             except subprocess.TimeoutExpired:
                 v.append(dict(kind='oracle', message='destroy-after-wait harness timed out (a wait or signal never returned)', case='destroy %d %d' % (ctx['seed'], n)))
-        self.extra_coverage = cov
+        self.extra_coverage = dict(getattr(self, 'extra_coverage', {}) or {}); self.extra_coverage.update(cov)
         return v
 
 
